@@ -626,20 +626,23 @@ pub fn gen_case(rng: &mut Rng, tier: &str, profile: &str, stats: &mut Stats) -> 
     let local: [u8; 32] = rng.bytes(32).try_into().unwrap();
     let ip = profile == "C16" || (profile != "C07" && profile != "C08" && rng.chance(1, 3));
     // pending-timeout regimes: already elapsed (0), never elapses, elapses mid-sequence (real sleeps)
-    let directed_c07 = profile == "C07" && rng.chance(1, 5);
+    let c07_variant = if profile == "C07" { rng.below(12) } else { 99 };
+    let directed_c07 = c07_variant < 2;
+    let directed_c07b = c07_variant == 2 || c07_variant == 3; // incoming limit vs. promotion
+    let directed_c07c = c07_variant == 4; // the only disconnected node disappears while a candidate waits
     let directed_c16b = profile == "C16" && rng.chance(1, 5);
-    let regime = if directed_c07 || directed_c16b { 0 } else if tier == "thorough" { rng.below(12) } else { rng.below(40) };
+    let regime = if directed_c07 || directed_c07b || directed_c07c || directed_c16b { 0 } else if tier == "thorough" { rng.below(12) } else { rng.below(40) };
     let (pending_ms, sleeps) = match regime {
         0 => (200u64, true),
         r if r % 2 == 1 => (0, false),
         _ => (100_000_000, false),
     };
-    let max_in = match rng.below(8) {
+    let max_in = if directed_c07b { rng.range(2, 8) } else { match rng.below(8) {
         0 => 0,
         1 => 1,
         2 | 3 => rng.below(17),
         _ => 16,
-    };
+    } };
     ops.push(format!("knew {} {} {} {} {}", hx(&local), pending_ms, max_in, if ip { "ip" } else { "none" }, if ip { "ip" } else { "none" }));
     // key universe: 2-4 hot buckets (driven to fullness), low-index buckets, a spread over all distances
     let mut hot: Vec<usize> = vec![255 - rng.below(3) as usize];
@@ -716,6 +719,51 @@ pub fn gen_case(rng: &mut Rng, tier: &str, profile: &str, stats: &mut Stats) -> 
         ops.push(format!("kentry {}", hx(&pk)));
         ops.push("kdump".into());
         ops.push("ktake".into());
+    }
+    if directed_c07b {
+        // directed prefix: the bucket's connected-incoming count is one below the limit when a
+        // connected-incoming candidate is queued, reaches the limit while it waits, then the
+        // candidate's timeout elapses (the head of the bucket is a disconnected *incoming* node)
+        stats.bump("gen.case.directed-incoming-limit-promotion");
+        let hb = hot[0];
+        let mut fresh = 4_000_000u64;
+        let mut members: Vec<[u8; 32]> = Vec::new();
+        for j in 0..16u64 {
+            let k = key_at(&local, hb, rng);
+            members.push(k);
+            let (st, dir) = if j == 0 { ("d", "i") } else if j < max_in { ("c", "i") } else { ("c", "o") };
+            ops.push(format!("kins {} v{}:- {} {}", hx(&k), fresh, st, dir));
+            fresh += 1;
+        }
+        let pk = key_at(&local, hb, rng);
+        ops.push(format!("kins {} v{}:- c i", hx(&pk), fresh));
+        ops.push(format!("kstatus {} c i", hx(&members[15])));
+        ops.push("kdump".into());
+        ops.push("ksleep 450".into());
+        ops.push(format!("kentry {}", hx(&pk)));
+        ops.push("kdump".into());
+    }
+    if directed_c07c {
+        stats.bump("gen.case.directed-disconnected-head-removed");
+        let hb = hot[0];
+        let mut fresh = 5_000_000u64;
+        let mut members: Vec<[u8; 32]> = Vec::new();
+        for j in 0..16 {
+            let k = key_at(&local, hb, rng);
+            members.push(k);
+            ops.push(format!("kins {} v{}:- {} o", hx(&k), fresh, if j == 0 { "d" } else { "c" }));
+            fresh += 1;
+        }
+        let pk = key_at(&local, hb, rng);
+        ops.push(format!("kins {} v{}:- c o", hx(&pk), fresh));
+        fresh += 1;
+        ops.push(format!("krm {}", hx(&members[0])));
+        let nk = key_at(&local, hb, rng);
+        ops.push(format!("kins {} v{}:- c o", hx(&nk), fresh));
+        ops.push("kdump".into());
+        ops.push("ksleep 450".into());
+        ops.push(format!("kentry {}", hx(&pk)));
+        ops.push("kdump".into());
     }
     if directed_c16b {
         // directed prefix: bucket already holding two records of one /24, a pending candidate from
